@@ -133,7 +133,9 @@ def gen(cls, idx, rng, tier):
                                  for _ in range(T)]))
         bursts.append(dict(W=rng.randint(1, 8), cmds=cmds))
     return dict(kind="random", T=T, timeout=timeout, bursts=bursts,
-                buffer_size=rng.choice([16, 64, 256]))
+                buffer_size=rng.choice([16, 64, 256]),
+                seq_start=rng.choice([0, 0, 0, 65535, 65530, 65500,
+                                      65536 - rng.randint(1, 80)]))
 
 
 # ------------------------------------------------------------ run one case
@@ -150,7 +152,7 @@ class Echo(object):
         return simnet.make_reply(req, 0x80, (cid, 0xabc, self.executed[cid]))
 
 
-def run_connection(T, timeout, bursts, buffer_size=256):
+def run_connection(T, timeout, bursts, buffer_size=256, seq_start=0):
     """Drive the real connection; -> list of (burst description, events)"""
     sc = importlib.import_module("rig.machine_control.scp_connection")
     net = simnet.Net()
@@ -194,6 +196,14 @@ def run_connection(T, timeout, bursts, buffer_size=256):
         raise AssertionError(o)
     net.plan = plan_fn
     conn = sc.SCPConnection("board", n_tries=T, timeout=timeout)
+    if seq_start and hasattr(conn, "seq"):
+        # a long-lived connection: the 16-bit sequence counter is about to
+        # wrap (the counter is advanced without sending anything)
+        try:
+            for _ in range(seq_start):
+                next(conn.seq)
+        except Exception:
+            pass
     results = []
     next_id = 1
     schedule, cmd_timeout = {}, {}
@@ -391,7 +401,10 @@ def run(case, ctx):
                       schedules=case["count"]))
     else:
         results, sc = run_connection(case["T"], case["timeout"],
-                                     case["bursts"], case["buffer_size"])
+                                     case["bursts"], case["buffer_size"],
+                                     case.get("seq_start", 0))
+        if case.get("seq_start"):
+            ctx.hit("connection_near_seq_wrap")
         earlier = set()
         for r in results:
             f = judge_burst(ctx, r, sc, earlier)
